@@ -43,6 +43,9 @@ def forN {σ ρ : Type} (body : Int → σ → Step σ ρ) : (n start : Nat) →
 /-- `xs[i]` — only emitted for the index variable of the enclosing `range xs` (in bounds) -/
 def idx {α : Type} [Inhabited α] (xs : List α) (i : Int) : α := xs.getD i.toNat default
 
+/-- `*p` / `p.f` through a pointer that may be nil (only emitted where the source dereferences) -/
+def deref {α : Type} [Inhabited α] (p : Option α) : α := p.getD default
+
 /-- `xs[i] = v` — same restriction -/
 def set {α : Type} (xs : List α) (i : Int) (v : α) : List α := xs.set i.toNat v
 
@@ -84,6 +87,8 @@ def time_Before (a b : Time) : Bool := decide (a < b)
 def time_After (a b : Time) : Bool := decide (a > b)
 def time_Equal (a b : Time) : Bool := a == b
 def time_Add (t : Time) (d : Int) : Time := t + d
+/-- `t.Truncate(d)`: down to a multiple of `d` since the zero time (`d ≤ 0`: unchanged) -/
+def time_Truncate (t : Time) (d : Int) : Time := if d ≤ 0 then t else t - t % d
 def time_Sub (a b : Time) : Int :=
   if a - b > maxDuration then maxDuration else if a - b < minDuration then minDuration else a - b
 
